@@ -46,6 +46,16 @@ type c16MgrCfg struct {
 	wide  bool // wide alphabet (every Retire Prior To value, conflicts for every seq), shallow
 	zero  bool // the peer uses zero-length connection IDs
 	uquic bool // spec-driven client: first op advertises a limit through SetConnectionIDLimit
+	deep  bool // first op replays a prefix of a connection's life cycle (c16Lifecycle): the search starts from states the depth bound does not reach from the initial one
+}
+
+// c16Lifecycle is the history whose prefixes are the start states of part mgr-deep: IDs
+// issued, one handed to a path probe, handshake completion with the first rotation, packets
+// sent up to the second rotation, more IDs, the probe retired.
+var c16Lifecycle = []explore.Op{
+	{N: "ncid", A: 1}, {N: "ncid", A: 2}, {N: "path", A: 1}, {N: "hc"}, {N: "get"},
+	{N: "ncid", A: 3}, {N: "ncid", A: 4}, {N: "sent"}, {N: "sent"}, {N: "get"},
+	{N: "ncid", A: 5}, {N: "sent"}, {N: "sent"}, {N: "get"}, {N: "rpath", A: 1},
 }
 
 // c16PeerCID is the connection ID the peer issues for seq (alt: a conflicting one).
@@ -101,6 +111,7 @@ type c16Mgr struct {
 	tokAdd   int
 	tokRem   int
 	advLimit int // limit this endpoint advertised (0: not chosen yet)
+	started  bool // mgr-deep: the start state was chosen
 
 	// reference model
 	issued   uint32   // bit s: the peer sent a frame for sequence number s (bit 0 always)
@@ -207,6 +218,13 @@ func (in *c16Mgr) Ops() []explore.Op {
 		}
 		return ops
 	}
+	if in.cfg.deep && !in.started {
+		var ops []explore.Op
+		for k := 3; k <= len(c16Lifecycle); k++ {
+			ops = append(ops, explore.Op{N: "start", A: k})
+		}
+		return ops
+	}
 	m := in.m
 	ops := []explore.Op{{N: "get"}}
 	if m.packetsSinceLastChange < c16RotationPeriod && !in.lean {
@@ -258,6 +276,17 @@ func c16ErrClass(err error) string {
 }
 
 func (in *c16Mgr) Apply(op explore.Op) *explore.Fail {
+	if op.N == "start" {
+		in.started = true
+		for _, o := range c16Lifecycle[:op.A] {
+			if fl := in.Apply(o); fl != nil {
+				return fl
+			}
+			explore.Must(!in.dead, "life cycle prefix %d ends the connection at %v", op.A, o)
+		}
+		in.ocOp, in.ocRes = "start", fmt.Sprint(op.A)
+		return nil
+	}
 	m := in.m
 	in.retires, in.otherFr, in.tokAdd, in.tokRem = in.retires[:0], 0, 0, 0
 	in.outcome = ""
@@ -348,6 +377,33 @@ func (in *c16Mgr) Apply(op explore.Op) *explore.Fail {
 			return explore.Failf(fmt.Sprintf("dropped-unreported:ncid(seq%sactive)", c16Rel(seq, m.activeSequenceNumber)),
 				"NEW_CONNECTION_ID(seq=%d, retire_prior_to=%d) was accepted, the ID is not stored (active %d, queue %v) and no RETIRE_CONNECTION_ID(%d) was ever queued",
 				seq, rpt, m.activeSequenceNumber, in.queueSeqs(), seq)
+		}
+		// Retire Prior To: once the frame is processed nothing below the highest value the peer
+		// sent may still be stored (as active ID, queued, or in use for a path probe)
+		below := heldAfter & (1<<in.maxRPT - 1)
+		if len(m.queue) == 0 {
+			// the active ID cannot be given up while the peer has supplied nothing to switch to
+			below &^= 1 << m.activeSequenceNumber
+		}
+		if below != 0 {
+			class := "new"
+			switch {
+			case heldBefore&(1<<seq) != 0:
+				class = "duplicate"
+			case heldAfter&(1<<seq) == 0:
+				class = "retired-on-arrival"
+			}
+			where := "queue"
+			lowest := uint64(c16Bits(below)[0])
+			switch {
+			case lowest == m.activeSequenceNumber:
+				where = "active"
+			case m.isProbing(lowest):
+				where = "probing"
+			}
+			return explore.Failf("held-below-retire-prior-to:"+where+":frame-"+class,
+				"NEW_CONNECTION_ID(seq=%d, retire_prior_to=%d) was accepted (frame %s), the highest Retire Prior To received is %d, but sequence number(s) %v are still stored (active %d, queue %v, probing %v)",
+				seq, rpt, class, in.maxRPT, c16Bits(below), m.activeSequenceNumber, in.queueSeqs(), in.probingSeqs())
 		}
 		res = "accepted"
 	default:
@@ -512,7 +568,7 @@ func (in *c16Mgr) Outcome() string {
 func (in *c16Mgr) Key() string {
 	var sb strings.Builder
 	c16MgrDump(&sb, in.m)
-	fmt.Fprintf(&sb, "|adv=%d iss=%x rpt=%d rep=%x dead=%v tw=%v cs=%x ts=%x|%s", in.advLimit, in.issued, in.maxRPT, in.reported, in.dead, in.twice,
+	fmt.Fprintf(&sb, "|st=%v adv=%d iss=%x rpt=%d rep=%x dead=%v tw=%v cs=%x ts=%x|%s", in.started, in.advLimit, in.issued, in.maxRPT, in.reported, in.dead, in.twice,
 		in.cidSup[:in.S+1], in.tokSup[:in.S+1], in.tokenList())
 	return sb.String()
 }
@@ -532,6 +588,11 @@ func c16MgrPart(name string, cfg c16MgrCfg) explore.Part {
 			b, depth = c16MgrBounds{S: 6, nPth: 1, lean: true}, 7
 			if e.Thorough() {
 				b, depth = c16MgrBounds{S: 8, nPth: 1, lean: true}, 9
+			}
+		case cfg.deep:
+			b, depth = c16MgrBounds{S: 6, nPth: 1, allRPT: true}, 1+3
+			if e.Thorough() {
+				b, depth = c16MgrBounds{S: 7, nPth: 2, allRPT: true, confSeq: 1}, 1+4
 			}
 		case cfg.wide:
 			b, depth = c16MgrBounds{S: 5, nPth: 2, allRPT: true, confSeq: 5}, 4
@@ -559,7 +620,7 @@ func c16MgrPart(name string, cfg c16MgrCfg) explore.Part {
 			MaxDepth:         depth,
 			PanicIsViolation: true,
 			Rule: fmt.Sprintf("BFS (%s) over the real connIDManager (zero-length=%v, spec-driven=%v); alphabet: NEW_CONNECTION_ID(seq 1..%d, retire_prior_to %s; conflicting CID / conflicting token for seq 1..%d), Get, SentPacket (rotation period owned: %d), SetHandshakeComplete, SetStatelessResetToken, AddFromPreferredAddress, GetConnIDForPath/RetireConnIDForPath(path 1..%d), Close%s; state = every field of the connIDManager + peer model + registered-token set",
-				bound, cfg.zero, cfg.uquic, b.S, rpt, b.confSeq, c16RotationPeriod, b.nPth, map[bool]string{true: ", first op SetConnectionIDLimit(2..8) as u_connection.go does", false: ""}[cfg.uquic]),
+				bound, cfg.zero, cfg.uquic, b.S, rpt, b.confSeq, c16RotationPeriod, b.nPth, map[bool]string{true: ", first op SetConnectionIDLimit(2..8) as u_connection.go does", false: ""}[cfg.uquic]+map[bool]string{true: fmt.Sprintf("; the first op replays a prefix (3..%d ops) of the life-cycle history %v, the depth counts from there", len(c16Lifecycle), c16Lifecycle), false: ""}[cfg.deep]),
 		}
 	})
 }
